@@ -1,4 +1,5 @@
 import Wx.Glob.IgnoreFilterC
+import Wx.Glob.GlobPath
 /-! # C03 — Ignore files apply only inside their directory; the nearest match wins
 
 > A path is ignored exactly when git-style evaluation of the ignore files of its ancestor directories, nearest directory
@@ -49,5 +50,24 @@ theorem old_loop_leaked :
     let ev : Key → Option Nat := fun k => if k = ["o".toList, "test".toList] then some 1 else if k = ["o".toList] then some 0 else none
     let p : CPath := ["o".toList, "tests".toList, "f".toList]
     goOld keys ev (p.length + 1) (body p) = some 1 ∧ spec keys ev p = some 0 := goOld_ne_spec
+
+/-! ### what one ignore file does with a slash-free line
+
+The verdict function `ev` above is a parameter. For the concrete matcher (`Sp.Glob`, tied to the real `ignore` crate by the
+glob stream) the most common kind of line is characterised completely: -/
+open Sp.Glob in
+/-- the line `name` in an ignore file ignores exactly the paths below the file's directory that HAVE a component `name` —
+    the path itself or any directory above it (`matched_path_or_any_parents`) — for every clean name, every relative
+    path (given by its components), file or directory; `tests/x` is not touched by `test` -/
+theorem slash_free_line_ignores_its_subtrees (n orig root path : List Char) (hn : Clean n) (cs : List (List Char)) (hne : cs ≠ [])
+    (hcs : ∀ x ∈ cs, Comp x) (hstrip : strip root path = join cs) (isDir : Bool) :
+    matchedOrParents root [nameGlob orig n] path isDir ≠ .none ↔ ∃ c ∈ cs, c = n :=
+  name_ignores_iff n orig root path hn cs hne hcs hstrip isDir
+
+open Sp.Glob in
+/-- … and `nameGlob` is what `add_line` makes of that line -/
+theorem slash_free_line_is_nameGlob (n : List Char) (hn : Clean n) : addLine n = some (some (nameGlob n n)) := by
+  have := addLine_name false false n hn
+  simpa [nameGlob] using this
 
 end Props.C03
